@@ -313,7 +313,10 @@ def evalE : Nat → Env → Expr → M (R Val)
         | .jump fl env => pure (.jump fl env)
         | .val vargs env =>
           let r ← callValue fuel l vf vargs
-          pure (.val r env)
+          -- the value of a function whose body ends in a block or a loop is not specified:
+          -- only a call in statement position (value discarded) is constrained
+          if r matches .other "poison" then throw .unc
+          else pure (.val r env)
     | .arr _ es => do
       match ← evalArgs fuel env es with
       | .jump fl env => pure (.jump fl env)
@@ -480,7 +483,7 @@ def callValue : Nat → Nat → Val → List Val → M Val
           match c.body.stmts.getLast? with
           | some (.exprS ..) => pure v
           | some (.letS ..) | some (.fnS ..) | some (.ret ..) | none => pure .null
-          | _ => throw .unc     -- a body ending in a loop/block/break: not specified
+          | _ => pure (.other "poison")     -- a body ending in a loop/block/break: the value is not specified
         | _ => throw .unc
     | .builtin "puts" => do
       -- `puts` writes its arguments (strings verbatim, other values as displayed) and a newline
@@ -548,6 +551,17 @@ def evalStmt : Nat → Env → Stmt → M (Flow × Val × Env)
   | 0, _, _ => throw .fuel
   | fuel+1, env, s =>
     match s with
+    | .exprS _ (.call l f args) => do
+      -- a call in statement position: its value is discarded, so a function whose value is
+      -- not specified may be called here
+      match ← evalE fuel env f with
+      | .jump fl env => pure (fl, .null, env)
+      | .val vf env =>
+        match ← evalArgs fuel env args with
+        | .jump fl env => pure (fl, .null, env)
+        | .val vargs env =>
+          let r ← callValue fuel l vf vargs
+          pure (.normal, r, env)
     | .exprS _ e => do
       match ← evalE fuel env e with
       | .val v env => pure (.normal, v, env)
